@@ -80,6 +80,22 @@ def check(ctx: Ctx) -> str:
                     n_.id = ren[n_.id]
             set_parents(loop)
             src = ast.unparse(loop)
+    elif isinstance(loop.target, ast.Name):
+        # `for row in _mutable_spec:` with row[0] / row[1] instead of unpacking
+        from ..normalize import clone, set_parents
+
+        rv_ = loop.target.id
+        loop = clone(loop)
+
+        class _Idx(ast.NodeTransformer):
+            def visit_Subscript(self, n_: ast.Subscript) -> ast.AST:
+                if isinstance(n_.value, ast.Name) and n_.value.id == rv_ and isinstance(n_.slice, ast.Constant) and n_.slice.value in (0, 1):
+                    return ast.copy_location(ast.Name(id=("typespec", "unsafe")[n_.slice.value], ctx=ast.Load()), n_)
+                return self.generic_visit(n_)
+
+        loop = _Idx().visit(loop)
+        set_parents(loop)
+        src = ast.unparse(loop)
     first_match = False
     any_match = False
     for n in ast.walk(loop):
